@@ -60,6 +60,9 @@ def run(ctx):
                     ok = flag == G.FALSE and not any(t.op == "param" and t.a[1] == "sig" for t in subterms(sigarg))
                     ctx.ob("E2.diagonal", "%s@%s/%s" % (f.key, sv, cv), ok, "mismatching variants: unseal gets flag 0 and not the caller's signature (flag=%s, sig=%s)" % (G.show_f(flag), show(sigarg, 3)), where=where(f, c.bb))
         ctx.floor("E2.diagonal", "(signature variant, ciphertext scheme) pairs", npairs, 9)
+    # "...or recombined from threshold shares": every share reaches the signature combiner
+    F.check_combiner_images(ctx, "E6.combine", P, only=("Signature<C>::from_shares",))
+    F.check_combiner_lengths(ctx, "E4.len-range", P)
     # open flag
     u = ctx.need_fn("E4.flag", "BlsTimeCrypt::unseal")
     if u is not None:
